@@ -12,6 +12,9 @@
 //!      -> (parse-table ((err stopped rate active nset) ...))
 //! (4 ...) like 3 but with the real reloader thread: run as `c15 live` child process, stdin =
 //!      case line + line with the expected (active nset) per step -> ((active nset) ...)
+//! (5 configs seq probes)  GLOBAL logger, run as `c15 facade` child process: init_config(configs[seq[0]]),
+//!      then handle.set_config(configs[seq[i]]); after each has returned every probe is logged through
+//!      the `log::log!` macro (which consults log::max_level) -> per step, per probe ((tag idx) ...)
 use log::Log;
 use log4rs::append::Append;
 use log4rs::config::{Appender, Config, Deserialize, Deserializers, Logger, Root};
@@ -690,6 +693,31 @@ fn run_live(c: &[Val], expect: &[Val]) -> Val {
     Val::L(out)
 }
 
+/// child process: the global logger behind the `log` facade
+fn run_facade(c: &[Val]) -> Val {
+    let cfgs = c[1].l();
+    let probes: Vec<(String, u128)> = c[3].l().iter().map(|p| (p.l()[0].str(), p.l()[1].n())).collect();
+    let mut handle: Option<log4rs::Handle> = None;
+    let mut out = vec![];
+    for ci in c[2].l() {
+        let cfg = build_config(&cfgs[ci.u()], None, None, None);
+        match &handle {
+            None => handle = Some(log4rs::init_config(cfg).expect("init_config")),
+            Some(h) => h.set_config(cfg),
+        }
+        let mut step = vec![];
+        for (t, l) in &probes {
+            drain_deliv();
+            log::log!(target: t.as_str(), level(*l), "p");
+            step.push(Val::L(
+                drain_deliv().into_iter().map(|(t, i)| Val::L(vec![Val::N(t as u128), Val::N(i as u128)])).collect(),
+            ));
+        }
+        out.push(Val::L(step));
+    }
+    Val::L(out)
+}
+
 fn run(case: &Val) -> Val {
     let c = case.l();
     match c[0].n() {
@@ -719,6 +747,20 @@ fn main() {
         vh::val::print(&res, &mut buf);
         println!("{}", buf);
         // the reloader thread may still be running
+        std::process::exit(0);
+    }
+    if args.len() > 1 && args[1] == "facade" {
+        std::panic::set_hook(Box::new(|_| {}));
+        let mut line = String::new();
+        std::io::stdin().read_line(&mut line).unwrap();
+        let case = vh::val::parse(&line);
+        let res = match std::panic::catch_unwind(|| run_facade(case.l())) {
+            Ok(v) => v,
+            Err(_) => Val::panic(),
+        };
+        let mut buf = String::new();
+        vh::val::print(&res, &mut buf);
+        println!("{}", buf);
         std::process::exit(0);
     }
     vh::main_loop(run);
